@@ -100,20 +100,26 @@ def run_reader_path(text, widths, delimiter):
 _CIDS = {}
 
 
-def run_reader_cid(text, widths, delimiter):
+def run_reader_cid(text, widths, delimiter, encoding=None):
     """The same reading through cutplace.rows under a CID that declares the widths and the line delimiter setting
     (every field is an optional Text field, so no row is rejected for its content)."""
     import cutplace
 
     m = harness.modules()
-    key = (tuple(widths), delimiter)
+    key = (tuple(widths), delimiter, encoding)
     if key not in _CIDS:
-        rows = [["D", "Format", "Fixed"], ["D", "Encoding", "utf-8"], ["D", "Line delimiter", delimiter_name(delimiter)]]
+        rows = [["D", "Format", "Fixed"], ["D", "Encoding", encoding or "utf-8"], ["D", "Line delimiter", delimiter_name(delimiter)]]
         rows += [["F", "f%d" % i, "", "X", str(w)] for i, w in enumerate(widths)]
         _CIDS[key] = harness.make_cid(rows)
     rows = []
+    source = harness.NamedStringIO(text)
+    if encoding:
+        # stored in the declared encoding (characters are not bytes) and opened by the reader itself
+        source = os.path.join(readermachine.tmpdir(), "fixed_%s.txt" % encoding)
+        with open(source, "w", newline="", encoding=encoding) as stream:
+            stream.write(text)
     try:
-        for row in cutplace.rows(_CIDS[key], harness.NamedStringIO(text)):
+        for row in cutplace.rows(_CIDS[key], source):
             rows.append(row)
         return "ok", [list(r) for r in rows], None
     except m["errors"].DataFormatError as error:
@@ -129,13 +135,13 @@ def delimiter_name(delimiter):
 def judge_complete(text, widths, delimiter, part, case=None, via_path=False):
     """Judge one complete input by the statement. -> outcome kind"""
     via_path = via_path or (case and case.get("via_path")) or False
-    if via_path == "cid":
-        kind, rows, detail = run_reader_cid(text, widths, delimiter)
+    if isinstance(via_path, str) and via_path.startswith("cid"):
+        kind, rows, detail = run_reader_cid(text, widths, delimiter, via_path[4:] or None)
     else:
         kind, rows, detail = run_reader_path(text, widths, delimiter) if via_path else run_reader(text, widths, delimiter, True)
     part.transitions += 1
     part.validated += 1
-    tag = "%s|%s%%s" % (delimiter_name(delimiter), "declared-in-a-cid:" if via_path == "cid" else ("file-opened-by-the-reader:" if via_path else ""))
+    tag = "%s|%s%%s" % (delimiter_name(delimiter), ("declared-in-a-cid:" if via_path == "cid" else "declared-in-a-cid-file-in-%s:" % via_path[4:]) if isinstance(via_path, str) and via_path.startswith("cid") else ("file-opened-by-the-reader:" if via_path else ""))
     case = case or {"text": text, "widths": list(widths), "delimiter": delimiter, "via_path": via_path}
     total = sum(widths)
     if kind == "ok":
@@ -278,6 +284,9 @@ def run(ctx):
     ctx.pmap(MOD, "enumerate_strings", path_items, label="C13 enumeration through files")
     # and through cutplace.rows under a CID that declares widths and line delimiter (the setting has to reach the reader unchanged)
     cid_items = [(widths, delimiter, path_length + 1, "ab\r\n", "cid") for widths in ([1], [2], [1, 2], [2, 1, 1]) for delimiter in DELIMITERS]
+    # the same from files in encodings whose characters take several bytes
+    cid_items += [(widths, delimiter, 4 if quick else 6, alphabet, "cid:" + encoding) for widths in ([1], [3], [1, 2]) for delimiter in DELIMITERS
+                  for encoding, alphabet in (("utf-16", "ab\r\n"), ("utf-8", "a\xe4\r\n"), ("utf-32", "a\r\n"))]
     ctx.pmap(MOD, "enumerate_strings", cid_items, label="C13 enumeration through CIDs")
     fix_lists = [[1], [2], [1, 1], [2, 1], [1, 2], [3], [1, 1, 1], [2, 2], [3, 1], [1, 3], [1, 2, 1], [2, 1, 2], [3, 3]] if quick else width_lists("thorough")
     fix_items = []
